@@ -194,6 +194,7 @@ def rule_match_or_skip(ctx: Ctx, rule: str) -> None:
                 for t in (s.targets if isinstance(s, ast.Assign) else [s.target]):
                     if norm_src(t) == 'self._skipped':
                         writers.setdefault(fi.name, []).append(norm_src(s))
+    writers = _owners(repo, writers)
     want = {'__init__': ['self._skipped = 0'], 'imatch': ['self._skipped = 0'], '_walk': ['self._skipped += 1']}
     ctx.ob(rule, f'{WM}:WcMatch/_skipped-writers', writers == want, repo.loc(WM, wk.node), str(want), str(writers),
            witness='a second writer breaks "skipped = visited − returned"')
@@ -306,6 +307,30 @@ def rule_wcmatch_predicates(ctx: Ctx, rule: str) -> None:
     ctx.ob(rule, f'{WM}:WcMatch._compile/empty-exclude-pattern', not bad2, repo.loc(WM, cp.node), 'WcRegexp(()) (falsy, matches nothing)', 'as expected' if not bad2 else bad2[0])
     ctx.ob(rule, f'{WM}:WcMatch._compile/given-patterns', not bad3, repo.loc(WM, cp.node),
            'given patterns go through _compile_wildcard with their own pathname switch; existing matchers are kept', 'as expected' if not bad3 else bad3[0])
+
+
+def _owners(repo: Any, writers: dict[str, list[str]]) -> dict[str, list[str]]:
+    """Attribute writes found in a helper that is not part of the pinned vocabulary are credited to the pinned methods that call it."""
+    from ..vocabulary import PINNED_FUNCTIONS
+    ci = repo.cls(WM, 'WcMatch')
+    callers: dict[str, set[str]] = {}
+    for fi in ci.methods.values():
+        for c in walk_no_nested(fi.node):
+            if isinstance(c, ast.Call) and isinstance(c.func, ast.Attribute) and isinstance(c.func.value, ast.Name) and c.func.value.id == 'self':
+                callers.setdefault(c.func.attr, set()).add(fi.name)
+    out: dict[str, list[str]] = {}
+    for name, stmts in writers.items():
+        todo, seen = [name], set()
+        while todo:
+            n = todo.pop()
+            if n in seen:
+                continue
+            seen.add(n)
+            if f'{WM}:WcMatch.{n}' in PINNED_FUNCTIONS or not callers.get(n):
+                out.setdefault(n, []).extend(stmts)
+            else:
+                todo.extend(callers[n])
+    return {k: sorted(v) for k, v in out.items()}
 
 
 def walk_rows(repo: Any) -> list:
@@ -429,6 +454,7 @@ def rule_abort_flag_writers(ctx: Ctx, rule: str) -> None:
                 writers.setdefault(fi.name, []).append(norm_src(s))
             if isinstance(s, ast.Delete) and any(norm_src(t) == 'self._abort' for t in s.targets):
                 writers.setdefault(fi.name, []).append(norm_src(s))
+    writers = _owners(repo, writers)
     want = {'__init__': ['self._abort = False'], 'kill': ['self._abort = True'], 'reset': ['self._abort = False']}
     ctx.ob(rule, f'{WM}:WcMatch/_abort-writers', writers == want, repo.loc(WM, repo.cls(WM, 'WcMatch').node), str(want), str(writers),
            witness='if imatch() cleared the flag, a kill() issued before match() would be lost')
